@@ -696,6 +696,8 @@ class Exec:
                     for prev in ci.node.body:          # class-body scope: earlier class-level names are visible
                         if prev is n:
                             break
+                        if isinstance(prev, ast.FunctionDef):
+                            cenv.v[prev.name] = Closure(prev, Env(), prev.name, cls=c, module=ci.module)
                         if isinstance(prev, ast.Assign) and len(prev.targets) == 1 and isinstance(prev.targets[0], ast.Name) and prev.targets[0].id != name:
                             pm = self.class_member(c, prev.targets[0].id)
                             if isinstance(pm, tuple):
